@@ -24,7 +24,7 @@ AGENTS = ["a1", "a2", "a10", "b", "a_1"]
 COMPS = ["c1", "c2", "v1", "v10", "f_1"]
 # ... including integer costs that no float represents exactly (a big-M penalty plus a small preference)
 nums = st.sampled_from([0, 1, 2, 5, 0.5, 7.25, 100, 1000000, 2 ** 53 + 1, 10 ** 18 + 7])
-extras = st.dictionaries(st.sampled_from(["capacity", "foo", "pref", "zone"]),
+extras = st.dictionaries(st.sampled_from(["capacity", "foo", "pref", "zone", "_zone_id"]),
                          st.one_of(st.integers(0, 1000), st.sampled_from(["x", "room1", 2.5])), max_size=3)
 
 
@@ -61,6 +61,7 @@ def cases(draw):
         if draw(st.booleans()):
             case["separator"] = draw(st.sampled_from(["_", "-", "", "__"]))
     case["prefix"] = draw(st.sampled_from(["a", "agt_", ""]))
+    case["other_default"] = draw(nums)
     return case
 
 
@@ -131,6 +132,22 @@ def run_case(case):
             why = check_agent(single, case["name"], args)
         if why:
             return Outcome(False, "AgentDef(%r, %r): %s" % (case["name"], _kwargs(args), why), nontrivial, labels)
+        if "hosting_costs" in args:
+            # one table object given to two definitions with different defaults (create_agents hands one dict
+            # to a whole batch): a lookup on one agent must not change what the other answers
+            table, dh2 = dict(args["hosting_costs"]), case.get("other_default", 3)
+            with under_test():
+                first = AgentDef(case["name"], hosting_costs=table,
+                                 default_hosting_cost=args.get("default_hosting_cost", 0))
+                other = AgentDef("other", hosting_costs=table, default_hosting_cost=dh2)
+                asked = [(c, first.hosting_cost(c), other.hosting_cost(c)) for c in COMPS]
+            labels.append("shared-table")
+            for c, _, got in asked:
+                exp = args["hosting_costs"].get(c, dh2)
+                if got != exp or type(got) is not type(exp):
+                    return Outcome(False, "two AgentDef sharing the table %r: after %r was asked, the agent with default "
+                                          "%r answers hosting_cost(%r) = %r, expected %r"
+                                   % (args["hosting_costs"], case["name"], dh2, c, got, exp), nontrivial, labels)
         if kind == "single":
             return Outcome(True, "", nontrivial, labels)
         prefix = case["prefix"]
